@@ -122,6 +122,10 @@ pub fn deliver(ctx: &mut RunCtx, node: &VerifierNode, msg: &Msg, version: PlonkV
         }
     }
     ctx.st.probe("verify_decisions_mirrored");
+    {
+        let d = crate::prng::digest(&msg.proof) ^ (real.accepted() as u64) ^ ((rm.accepted() as u64) << 1) ^ (msg.pi.len() as u64) << 8;
+        ctx.st.log(d);
+    }
     if real.accepted() != rm.accepted() {
         return Err(Violation::new(
             "I-refine",
